@@ -613,3 +613,6 @@ func InnermostLoop(fn *ssa.Function, b *ssa.BasicBlock) map[*ssa.BasicBlock]bool
 	}
 	return best
 }
+
+// CellOf resolves an address (Alloc or a chain of captured free variables) to the variable cell it denotes.
+func (p *Prog) CellOf(addr ssa.Value) *ssa.Alloc { return p.cellOf(addr) }
